@@ -257,11 +257,41 @@ func ext۰strings۰Index(fr *frame, args []value) value {
 
 func ext۰strings۰Replace(fr *frame, args []value) value {
 	// func Replace(s, old, new string, n int) string
-	s := args[0].(string)
-	new := args[1].(string)
-	old := args[2].(string)
-	n := args[3].(int)
-	return strings.Replace(s, old, new, n)
+	old, ok1 := args[1].(string)
+	new, ok2 := args[2].(string)
+	n, ok3 := args[3].(int)
+	if !ok1 || !ok2 || !ok3 {
+		panic(unsupported("strings.Replace with a symbolic pattern, replacement or count"))
+	}
+	if s, ok := args[0].(string); ok {
+		return strings.Replace(s, old, new, n)
+	}
+	// symbolic subject: one-byte patterns only; every comparison is a path decision
+	if len(old) != 1 {
+		panic(unsupported("strings.Replace on a symbolic string with a pattern of more than one byte"))
+	}
+	var out []value
+	done := 0
+	for _, b := range strBytes(args[0]) {
+		hit := false
+		if n < 0 || done < n {
+			switch bv := b.(type) {
+			case uint8:
+				hit = bv == old[0]
+			case *sym:
+				hit = bv.X.Decide(bv.X.C.Eq(bv.E, bv.X.C.BV(8, uint64(old[0]))), "strings.Replace")
+			}
+		}
+		if hit {
+			done++
+			for i := 0; i < len(new); i++ {
+				out = append(out, new[i])
+			}
+		} else {
+			out = append(out, b)
+		}
+	}
+	return mkString(out)
 }
 
 func ext۰strings۰ToLower(fr *frame, args []value) value {
